@@ -30,6 +30,8 @@ WHY = {
  'hook-write-block-in-association-save': 'association saves run under Session{DisableNestedTransaction: true} and the hooks of the associated records inherit that session; restoring the caller\'s setting for hooks needs the original value carried along',
  'selfappend-byvalue-assignback': 'saveAssociation\'s assign-back copies the appended element (a copy of the owner taken before its relation field was set) over the argument, which is the owner itself; avoiding it needs an identity check in the assign-back loop of all relation kinds',
  'scope-returns-session-handle': 'tried: continuing Execute on an instance of the returned handle repairs the transaction bookkeeping, but callers that ignore Execute\'s return value (CreateInBatches reads subtx.Error) then lose errors - what a scope may return needs a decision first; reverted',
+ 'shared-child-in-partly-new-slice': 'the re-create of a partly seen slice is also what writes the foreign keys of the seen has-one/has-many elements (upsert with DoUpdates); skipping seen elements loses that write, so hooks-once needs the insert split from the link update',
+ 'shared-child-across-batches': 'each batch of CreateInBatches is a Create of its own with its own visit map; sharing the map across batches has to be done from package gorm, where its type is not visible (4606f7f repairs the case inside one batch)',
  'preparestmt-bounded-pool': 'documented trade-off in prepare() (it cannot hold the lock while waiting for a connection)',
 }
 
